@@ -1,7 +1,7 @@
 (* props/C01.v - property C01: base and extension field arithmetic is exact and canonical.
    Only statements, each closed by `exact`, each followed by Print Assumptions. *)
 From Coq Require Import ZArith Bool List.
-From TF Require Import Word BFieldGen BField XField BFieldProofs BFieldLoops XFieldProofs BatchInvProofs.
+From TF Require Import Word BFieldGen BField XField BFieldProofs BFieldLoops ModP XFieldProofs XFieldIrred BatchInvProofs.
 Import ListNotations.
 From TF Require Lucas.
 Open Scope Z_scope.
@@ -140,14 +140,21 @@ Theorem C01_xscale : forall x k, canon3 x -> canon k ->
 Proof. exact xscale_spec. Qed.
 Print Assumptions C01_xscale.
 
-(* PARTIAL: the inverse is the inverse whenever the norm is non-zero mod p; that every non-zero element has
-   non-zero norm (irreducibility of x^3 - x + 1 over Z/p) is not proved. *)
-Definition C01_xinverse_full : Prop := forall x, canon3 x -> val3 x <> (0, 0, 0) ->
+(* x^3 - x + 1 has no root modulo p (Frobenius X^p by 64 squarings + Bezout certificate), so it is irreducible
+   (a reducible cubic has a linear factor) and every non-zero element has a non-zero norm *)
+Theorem C01_shah_no_root : forall r, ~ eqP (r ^ 3 - r + 1) 0.
+Proof. exact shah_no_root. Qed.
+Print Assumptions C01_shah_no_root.
+
+Theorem C01_norm_nonzero : forall c b a, ~ (eqP c 0 /\ eqP b 0 /\ eqP a 0) -> ~ eqP (norm3 (c, b, a)) 0.
+Proof. exact norm3_nonzero. Qed.
+Print Assumptions C01_norm_nonzero.
+
+(* inversion returns the multiplicative inverse of EVERY non-zero extension-field element *)
+Theorem C01_xinverse : forall x, canon3 x -> val3 x <> (0, 0, 0) ->
   exists y, xinverse x = Some y /\ canon3 y /\ red3 (vmul3 (val3 y) (val3 x)) = (1, 0, 0).
-Theorem C01_xinverse_partial : forall x, canon3 x -> norm3 (val3 x) mod P <> 0 ->
-  exists y, xinverse x = Some y /\ canon3 y /\ red3 (vmul3 (val3 y) (val3 x)) = (1, 0, 0).
-Proof. exact xinverse_spec. Qed.
-Print Assumptions C01_xinverse_partial.
+Proof. exact xinverse_total. Qed.
+Print Assumptions C01_xinverse.
 
 Theorem C01_xinverse_zero_panics : xinverse xzero = None.
 Proof. exact xinverse_zero_panics. Qed.
